@@ -229,18 +229,6 @@ impl EnergyWorld {
             self.farm.clone()
         }
     }
-    fn id_of(&self, a: &Address) -> u64 {
-        for (i, u) in self.users.iter().enumerate() {
-            if u == a {
-                return i as u64 + 1;
-            }
-        }
-        if *a == self.farm {
-            return FARM;
-        }
-        0
-    }
-
     fn lbal(&self, a: &Address, n: u64) -> BigUint {
         self.b.get_esdt_balance(a, LOCKED, n)
     }
